@@ -316,11 +316,167 @@ def _helpers(prog: Program, res: Result) -> None:
                 res.bad("HELP-dom", fi.short, d2, prog.loc(fi, call[0]), f"search list is `{srch}`: callers that rely on the documented order pair wrong entries")
 
 
+# ------------------------------------------------------------------ HELP-space: index spaces of the row helpers
+class _SV:
+    """abstract value: kind in listing / index / mask; `align` = the listing its entries are aligned with; `vals` = the listing
+    its values are positions of (indices only)"""
+    def __init__(self, kind, align=None, vals=None):
+        self.kind, self.align, self.vals = kind, align, vals
+
+    def __repr__(self):
+        return f"{self.kind}[{self.align}->{self.vals}]"
+
+
+def _spaces(fn: ast.FunctionDef):
+    """Evaluate a row helper over index spaces.  Returns (value of each return, list of (node, message) mismatches)."""
+    params = [a.arg for a in fn.args.args]
+    env = {p: _SV("listing", f"rows({p})") for p in params}
+    problems = []
+    returns = []
+
+    def ev(e):
+        if isinstance(e, ast.Name):
+            return env.get(e.id)
+        if isinstance(e, ast.Tuple) and len(e.elts) == 1:
+            return ev(e.elts[0])
+        if isinstance(e, ast.Compare) and len(e.ops) == 1:
+            l = ev(e.left)
+            if l is not None and l.kind == "index":
+                return _SV("mask", l.align)
+            return None
+        if isinstance(e, ast.Call):
+            nm = dotted(e.func) or ""
+            base = nm.split(".")[-1]
+            if base == "unique" and e.args and const(kwarg(e, "return_index")) is True:
+                x = ev(e.args[0])
+                if x is not None and x.kind == "listing" and x.align.startswith("rows("):
+                    X = x.align[5:-1]
+                    return (_SV("listing", f"sortedU({X})"), _SV("index", f"sortedU({X})", f"rows({X})"))
+                return None
+            if base == "argsort" and e.args:
+                i = ev(e.args[0])
+                if isinstance(i, _SV) and i.kind == "index" and i.align.startswith("sortedU(") and i.vals.startswith("rows("):
+                    X = i.align[8:-1]
+                    return _SV("index", f"orderU({X})", f"sortedU({X})")
+                return None
+            if base == "sort" and e.args:
+                i = ev(e.args[0])
+                if isinstance(i, _SV) and i.kind == "index" and i.align.startswith("sortedU(") and i.vals.startswith("rows("):
+                    X = i.align[8:-1]
+                    return _SV("index", f"orderU({X})", f"rows({X})")
+                if isinstance(i, _SV) and i.kind == "index":
+                    return _SV("index", "sub", i.vals)       # sorting values keeps their space, loses the alignment
+                return None
+            if base in ("where", "nonzero", "flatnonzero") and e.args:
+                m = ev(e.args[0])
+                if isinstance(m, _SV) and m.kind == "mask":
+                    return _SV("index", "sub", m.align)
+                return None
+            if base == "tt_ismember_rows" and len(e.args) == 2:
+                a, b = ev(e.args[0]), ev(e.args[1])
+                if isinstance(a, _SV) and isinstance(b, _SV) and a.kind == "listing" and b.kind == "listing":
+                    return (_SV("mask", a.align), _SV("index", a.align, b.align))
+                return None
+            if base == "setdiff1d" and len(e.args) == 2:
+                a, b = ev(e.args[0]), ev(e.args[1])
+                if isinstance(a, _SV) and isinstance(b, _SV) and a.kind == "index" and b.kind == "index":
+                    if a.vals != b.vals:
+                        problems.append((e, f"np.setdiff1d removes positions in `{b.vals}` from indices into `{a.vals}`"))
+                    return _SV("index", "sub", a.vals)
+                return None
+            if base in ("vstack", "concatenate") and e.args and isinstance(e.args[0], (ast.Tuple, ast.List)):
+                for x in e.args[0].elts:
+                    ev(x)
+                return _SV("listing", "rows(result)")
+            if base in ("astype", "copy", "squeeze", "array", "asarray") :
+                tgt = e.func.value if isinstance(e.func, ast.Attribute) and not nm.startswith(("np.", "numpy.")) else (e.args[0] if e.args else None)
+                return ev(tgt) if tgt is not None else None
+            return None
+        if isinstance(e, ast.Subscript):
+            base = ev(e.value)
+            if isinstance(base, tuple):
+                k = const(e.slice)
+                return base[k] if isinstance(k, int) and k < len(base) else None
+            sl = e.slice
+            if isinstance(sl, ast.Tuple) and sl.elts and all(isinstance(x, ast.Slice) for x in sl.elts[1:]):
+                sl = sl.elts[0]
+            idx = ev(sl) if not isinstance(sl, ast.Slice) else None
+            if not isinstance(base, _SV) or not isinstance(idx, _SV):
+                return base if isinstance(base, _SV) and isinstance(sl, ast.Slice) else None
+            if idx.kind == "mask":
+                if idx.align != base.align:
+                    problems.append((e, f"a mask aligned with `{idx.align}` selects from `{ast.unparse(e.value)}`, which is aligned with `{base.align}`"))
+                return _SV(base.kind, "sub", base.vals)
+            if idx.kind == "index":
+                if idx.vals != base.align:
+                    problems.append((e, f"`{ast.unparse(sl)[:50]}` holds positions in `{idx.vals}` but subscripts `{ast.unparse(e.value)}`, "
+                                        f"which is aligned with `{base.align}`"))
+                return _SV(base.kind, idx.align, base.vals)
+            return None
+        return None
+
+    def block(body):
+        for st in body:
+            if isinstance(st, ast.Assign) and len(st.targets) == 1:
+                v = ev(st.value)
+                t = st.targets[0]
+                if isinstance(t, ast.Name) and isinstance(v, _SV):
+                    env[t.id] = v
+                elif isinstance(t, ast.Name) and isinstance(v, tuple):
+                    env[t.id] = v
+                elif isinstance(t, ast.Tuple) and isinstance(v, tuple):
+                    for x, y in zip(t.elts, v):
+                        if isinstance(x, ast.Name) and x.id != "_":
+                            env[x.id] = y
+                elif isinstance(t, ast.Name):
+                    env.pop(t.id, None)
+            elif isinstance(st, ast.If):
+                # `if X.size > 0:` - the non-empty side carries the logic
+                block(st.body)
+            elif isinstance(st, ast.Return) and st.value is not None:
+                returns.append((st, ev(st.value)))
+
+    block(fn.body)
+    return returns, problems
+
+
+def _help_space(prog: Program, res: Result) -> None:
+    for name, want in (("tt_intersect_rows", "index"), ("tt_setdiff_rows", "index"), ("tt_union_rows", "listing")):
+        fi = prog.func(f"pyttb_utils.{name}")
+        a_param = fi.params()[0]
+        rets, problems = _spaces(fi.node)
+        desc = f"{name}: every index is used in the space it was computed in, and the result addresses the rows of `{a_param}` (repeated rows included)"
+        if problems:
+            node, msg = problems[0]
+            res.bad("HELP-space", fi.short, desc, prog.loc(fi, node),
+                    msg + " - the two spaces coincide only when the argument has no repeated rows / is stored in sorted order")
+            continue
+        final = [v for _, v in rets if v is not None]
+        if not final:
+            res.undecided("HELP-space", fi.short, desc, prog.loc(fi), "result not tracked")
+            continue
+        v = final[-1]
+        if want == "index":
+            if isinstance(v, _SV) and v.kind == "index" and v.vals == f"rows({a_param})":
+                res.ok("HELP-space", fi.short, desc, prog.loc(fi, rets[-1][0]), repr(v))
+            elif isinstance(v, _SV) and v.kind == "index":
+                res.bad("HELP-space", fi.short, desc, prog.loc(fi, rets[-1][0]),
+                        f"the returned indices are positions in `{v.vals}`, not in `rows({a_param})`: with repeated rows in `{a_param}` they address other rows")
+            else:
+                res.undecided("HELP-space", fi.short, desc, prog.loc(fi, rets[-1][0]), repr(v))
+        else:
+            if isinstance(v, _SV) and v.kind == "listing":
+                res.ok("HELP-space", fi.short, desc.replace(f"addresses the rows of `{a_param}`", "is a list of rows"), prog.loc(fi, rets[-1][0]))
+            else:
+                res.undecided("HELP-space", fi.short, desc, prog.loc(fi, rets[-1][0]), repr(v))
+
+
 def check(prog: Program, res: Result, tier: str) -> None:
     res.explanation = __doc__.split("\n\n", 1)[1]
     res.assumptions = ["np.ravel_multi_index / np.unravel_index are mutual inverses for equal `order`; np.argsort is ascending and stable enough for distinct modes"]
-    res.floors = {"IDX-inv": 3, "DIMS": 4, "KRAX": 3, "EO-1": 4, "HELP-dom": 3}
+    res.floors = {"IDX-inv": 3, "DIMS": 4, "KRAX": 3, "EO-1": 4, "HELP-dom": 3, "HELP-space": 3}
     _helpers(prog, res)
+    _help_space(prog, res)
     _idx(prog, res)
     _dims(prog, res)
     _krax(prog, res)
